@@ -14,15 +14,32 @@ def oracle(case, out):
         return []
     viol = []
     strength = {}
+    released = set()   # instances whose owner unregistered / was deleted and that nobody has claimed since (reference)
+    ref_owner = {}     # instance -> writer, by the DDS rule (first writer, stronger takes over, released on unregister / deletion)
     for i, t, o, before, after in walk(case, out):
         if o in ("PANIC", "POISONED") or o.startswith("CRASH"):
             viol.append({"what": f"op {i} {' '.join(t)} panicked", "at": i}); break
         if t[0] == "pub":
             strength[int(t[1])] = int(t[2])
         elif t[0] == "unpub":
+            if int(t[1]) in strength:
+                for h_, w_ in list(ref_owner.items()):
+                    if w_ == int(t[1]):
+                        del ref_owner[h_]; released.add(h_)
             strength.pop(int(t[1]), None)
         elif t[0] == "add" and after is not None:
             w, inst = int(t[1]), int(t[2])
+            # reference ownership (independent of the implementation's own bookkeeping)
+            if inst in released and t[3] == "A" and w in strength and q["minsep"] == 0:
+                if o != "added":
+                    viol.append({"what": f"op {i}: instance {inst} was released by its owner (unregistered or deleted) but the sample of matched writer {w} was not accepted: {o}", "at": i})
+            if o == "added":
+                if t[3] in ("U", "DU"):
+                    ref_owner.pop(inst, None); released.add(inst)
+                elif t[3] in ("A", "F"):
+                    ref_owner[inst] = w; released.discard(inst)
+                elif t[3] == "D":
+                    released.discard(inst); ref_owner.pop(inst, None)   # dispose: either behaviour is accepted
             own_b = before[2].get(inst)
             ist_b = before[1].get(inst)
             ist_a = after[1].get(inst)
@@ -54,6 +71,6 @@ def run(ctx):
     ctx.differential(ENGINE, cases, nontrivial=nt, oracle=oracle)
 
 TECHNIQUE = "Lean 4 theorems on the ownership filter of add_reader_change + differential correspondence"
-LEVEL_TEXT = 'Kernel-checked Lean theorems for all states: with EXCLUSIVE ownership a change from a matched writer that is not the owner and not strictly stronger is never stored and does not change ownership (C24_non_owner_not_stored, ties keep the first owner), unmatched writers are dropped, a strictly stronger writer takes over (C24_stronger_takes_over), SHARED never filters. Instance-state changes by non-owners are a recorded finding (D29); hand-over on deadline miss / writer deletion lives outside the modelled entity and is only exercised by the differential ops pub/unpub.'
+LEVEL_TEXT = 'Kernel-checked Lean theorems for all states / op lists: with EXCLUSIVE ownership a change from a matched writer that is not the owner and not strictly stronger is never stored and does not change ownership (C24_non_owner_not_stored, ties keep the first owner), unmatched writers are dropped, a strictly stronger writer takes over (C24_stronger_takes_over), SHARED never filters; each instance has at most one owner in every reachable state (C24_owner_unique, induction over arbitrary op lists); ownership is released when the owner disposes/unregisters (C24_handover_on_unregister) and when the owning writer is removed (C24_handover_on_writer_removed) - two genuine defects here (D54, D55: ownership never passed on) were found by probing the model and repaired. Instance-state changes by non-owners remain a recorded finding (D29); hand-over on a missed deadline lives outside the modelled entity (discovery_methods.rs) and is not covered.'
 LEVEL_NOTE = 'Trusted: Lean kernel (axioms audited: propext, Classical.choice, Quot.sound at most); the hand-written model Model/ReaderHist.lean of data_reader_entity.rs / user_defined_data_reader.rs (handles as Nat, times as total ns, Vec as List); the hist harness that drives the real DataReaderEntity<()> / UserDefinedDataReader through the cfg(dust_dds_verif) re-export and prints canonical lines; the Python oracle. The differential run validates the model on sampled op sequences only; the theorems are about the model.'
 DESIGN_REF = 'DESIGN.md section 5 C24'
